@@ -23,6 +23,7 @@ func genAll() {
 	genImportsSrc()
 	genErrProp()
 	genSaveSrc()
+	genCursorSrc()
 	genAccess()
 	genResolveSrc()
 	genResolverSrc()
